@@ -36,6 +36,7 @@ def run_shard(ctx):
             jobs.append((sc, t, every))
     if ctx.tier != "quick":
         jobs.append(("store-to-store-index-wide", 0, 1))  # > 1000 objects; its kill points are chosen in crash_rounds
+        jobs.append(("store-to-store-expanded-wide", 0, 1))  # a directory of ~80 files requested alone (expanded); kills in the tail
     if ctx.tier == "quick":
         # further trees for the scenarios with a link-attempt window, killed only at the events that touch a final object name
         for t in (2, 3):
@@ -48,7 +49,7 @@ def run_shard(ctx):
     members = [s_ for s_ in range(ctx.nshards) if s_ % ngroups == ctx.shard % ngroups]
     stripe = (members.index(ctx.shard), len(members))
     for ji, (sc, t, ev) in enumerate(jobs):
-        case = (SCENARIOS.index(sc) if sc in SCENARIOS else 90) + 100 * t  # stable per (scenario, tree): adding scenarios does not change other cases' data
+        case = (SCENARIOS.index(sc) if sc in SCENARIOS else {"store-to-store-index-wide": 90, "store-to-store-expanded-wide": 91}[sc]) + 100 * t  # stable per (scenario, tree): adding scenarios does not change other cases' data
         if ctx.replay_case is not None and ctx.replay_case != case:
             continue
         if ctx.replay_case is None and ji % ngroups != ctx.shard % ngroups:
